@@ -131,6 +131,8 @@ def _r7_uniqueness(ctx, M):
 
 
 def run(ctx):
+    # "the address a client is told" is the other half of "one address, one client": the reply names the recorded lease (C13.R6)
+    ctx.include("C13", rules=("R6",))
     P = ctx.P
     cg = callgraph(P)
     M = PoolModel(P, cg)
